@@ -104,9 +104,25 @@ def apply_exclusions(d, kf, rng):
                 seen.add(nd['ins'][j])
 
 
+def alias_objects(root):
+    """objects emitted under a shared module name (structureName) with two input ports on one wire -
+    the exact domain of KF-C01-1, judged on the real hierarchy (also inside library blocks)"""
+    out = []
+    for o in seams.walk(root):
+        if hasattr(o, 'structureName') and o.children:
+            ws = [id(p.wire) for p in o.inPorts if p.wire is not None]
+            if len(set(ws)) < len(ws):
+                out.append(o)
+    return out
+
+
 def predicates(d):
     """parameter predicates that go into a violation signature (DESIGN 2.7)"""
-    return ':port-alias' if port_alias_nodes(d) else ''
+    try:
+        b = netlist.Built(d).build()
+        return ':port-alias' if alias_objects(b.dut) else ''
+    except Exception:
+        return ':port-alias' if port_alias_nodes(d) else ''
 
 
 def cosim(scn, log, st, zero_powerup=False, collect_all=False):
@@ -127,6 +143,10 @@ def cosim(scn, log, st, zero_powerup=False, collect_all=False):
         if kinds.count(kn) >= 2:
             st.probe('shared_module_reused')
             break
+    if known_findings().excluded('shared-module-port-alias') and alias_objects(b.dut) and not scn.get('allow_alias'):
+        st.probe('skipped_open_finding_domain')      # KF-C01-1: replayed from its reproducer instead
+        log.add('skipped: shared-module port alias')
+        return None
     try:
         with quiet():
             text = py4hw.VerilogGenerator(b.dut).getVerilogForHierarchy()
